@@ -8,6 +8,7 @@ Search (oracle on the real transcripts, independent of the model): every REQ is 
 a NOTICE within its step; no frame for a subscription name after its CLOSE / disconnect unless re-requested;
 never more than subscription_limit open subscriptions; a refused REQ leaves the others open.
 """
+import copy
 import json
 import random
 from collections import Counter
@@ -20,9 +21,14 @@ THEOREMS_TIED = ["C13_eose_at_most_once", "C13_req_outcomes", "C13_query_runs_to
                  "C13_send_enabled"]
 
 
-def check_session(report, drv, backend, rng, keys, tag, limit=3, n_msgs=None, msgs=None):
+def check_session(report, drv, backend, rng, keys, tag, limit=3, n_msgs=None, msgs=None, filters=None):
+    """`filters`: a filter generator with the signature and the contract of psess.gen_filter (-> (json filter, valid / invalid /
+    notquery)) that is used for the REQs of this session instead of it (default: psess.gen_filter itself)"""
     relay = Relay(backend, subscription_limit=limit)
+    orig_gen = psess.gen_filter
     try:
+        if filters is not None:
+            psess.gen_filter = filters
         run = psess.Runner(relay, rng, keys, limit)
         if msgs is None:
             msgs = psess.gen_session(rng, keys, relay, n_msgs or rng.randint(8, 22), limit)
@@ -67,8 +73,11 @@ def check_session(report, drv, backend, rng, keys, tag, limit=3, n_msgs=None, ms
                 eoses = [x for x in got if x[0] == "EOSE" and x[1] == name]
                 notices = [x for x in got if x[0] == "NOTICE"]
                 if len(eoses) + len(notices) != 1:
-                    report.property_failure("%s: a REQ was answered by %d EOSE and %d NOTICE frames" % (backend, len(eoses), len(notices)),
-                                            dict(payload, at=i), None)
+                    code = run.conns[c].closed_with
+                    report.property_failure("%s: a REQ was answered by %d EOSE and %d NOTICE frames%s" % (
+                        backend, len(eoses), len(notices),
+                        "" if code is None else " (the relay has closed this connection, which the client had not left, with code %s)" % code),
+                        dict(payload, at=i), None)
                 if notices:
                     n_nontrivial += 1
                 for x in got:
@@ -101,6 +110,7 @@ def check_session(report, drv, backend, rng, keys, tag, limit=3, n_msgs=None, ms
                     sample={"backend": backend, "messages": len(run.model_msgs), "kinds": dict(kinds)})
         report.count("sessions_" + backend)
     finally:
+        psess.gen_filter = orig_gen
         relay.close()
 
 
@@ -245,8 +255,287 @@ def midstream_cancel(report, backend, keys, rounds=12):
         relay.close()
 
 
+# ---------------------------------------------------------------------------------------------------------------------------
+# REQ filters that are invalid IN COMBINATION with otherwise well-formed parts.
+#
+# NostrQuery.model_validate rewrites the client's dict before pydantic sees it (every '#x' key with a list value becomes an entry of
+# a new `tags` key; a `tags` key of the client is overwritten or removed), and only then is the filter judged.  A filter that is
+# refused therefore reaches the error handling of subscribe() in a different state depending on what ELSE it carries; the
+# grammar of psess.gen_filter has one condition per invalid filter and never a tag condition on one.  Two families:
+#   * CombinedFilters (model-tied, through check_session): (valid / invalid base of the existing grammar, further invalidities
+#     layered over a valid base) x (0..3 tag conditions, each well-formed / holding a non-string scalar / holding a nested array or
+#     object / of a shape the relay ignores) x (a `tags` key of the client's own); the generator knows by construction which
+#     filters are usable;
+#   * typed_filter_probes (label-free): every JSON type at every filter field x 0..3 tag conditions, alone and next to a valid
+#     filter; the oracle needs no notion of validity: exactly one EOSE or NOTICE per REQ, EOSE after the REQ's events, and the
+#     connection answers the next REQ with the whole stored answer.
+# ---------------------------------------------------------------------------------------------------------------------------
+TAG_LETTERS = ["e", "p", "t", "a", "r"]
+NONSTRING_SCALARS = [1, 0, -1, None, True, False, 1.5, 2 ** 70]
+NESTED_ITEMS = [[1], ["x"], [], [[]], {"a": 1}, {}, [{"a": ["b"]}]]
+# conditions that refuse a filter whatever else it holds (the declared types and bounds of NostrQuery: lists of hex strings, a list
+# of integers, 0 <= since / until < 2145934800, 0 <= limit), beyond the six of psess.gen_filter
+MORE_INVALID = [{"kinds": "1"}, {"kinds": [1, "x"]}, {"kinds": {"a": 1}}, {"kinds": 1}, {"ids": "abc"}, {"ids": [5]}, {"ids": [["ab" * 32]]},
+                {"authors": ["zz" * 32]}, {"authors": "ab" * 32}, {"since": "x"}, {"since": 2145934800}, {"until": -5}, {"until": [1]},
+                {"limit": "many"}, {"limit": -1}]
+# values of a `tags` key supplied by the client: the relay builds that key itself, whatever the client put there is dropped
+CLIENT_TAGS = [5, "x", None, True, [], {}, [["t", ["x"]]], {"t": ["x"]}, [["t"]], [["t", "x"]], [[1, 2]]]
+
+
+def _hex64(rng):
+    return "%064x" % rng.getrandbits(256)
+
+
+def tag_values(rng, keys, known_ids, letter):
+    """well-formed values for a '#<letter>' condition (reference-shaped for e / p / a / r, the sessions' vocabulary for t)"""
+    pks = [k.public_key.hex() for k in keys]
+    if letter == "e":
+        pool = list(known_ids[-3:]) + [_hex64(rng), _hex64(rng)]
+    elif letter == "p":
+        pool = pks + [_hex64(rng)]
+    elif letter == "a":
+        pool = ["30000:%s:k1" % pks[0], "30000:%s:" % pks[1], "1:%s:x" % pks[2]]
+    elif letter == "r":
+        pool = ["wss://relay.example/", "https://example.com/a?b=c#d", "relay.example"]
+    else:
+        pool = ["x", "y", "z", "w"]
+    return rng.sample(pool, rng.randint(1, min(3, len(pool))))
+
+
+def add_tag_condition(f, rng, keys, known_ids, how):
+    """adds one condition of the requested kind to the filter `f` under a '#x' key it does not have yet; returns False if no letter is
+    left.  well: a list of strings; scalar: a list holding a non-string scalar (refuses the filter); nested: a list holding an array
+    or an object (refuses the filter); ignored: a shape that is no tag condition for the relay (value not a list, name not one
+    character) and changes nothing"""
+    free = [l for l in TAG_LETTERS if "#" + l not in f]
+    if not free:
+        return False
+    letter = rng.choice(free)
+    good = tag_values(rng, keys, known_ids, letter)
+    if how == "well":
+        f["#" + letter] = good
+    elif how in ("scalar", "nested"):
+        bad = [copy.deepcopy(rng.choice(NONSTRING_SCALARS if how == "scalar" else NESTED_ITEMS)) for _ in range(rng.choice([1, 1, 2]))]
+        if how == "nested" and rng.random() < 0.3:
+            bad.append(rng.choice(NONSTRING_SCALARS))
+        vals = bad + (good if rng.random() < 0.6 else [])      # alone, or mixed with valid values
+        rng.shuffle(vals)
+        f["#" + letter] = vals
+    else:
+        k = rng.random()
+        if k < 0.6:
+            f["#" + letter] = copy.deepcopy(rng.choice(["abc", 5, None, True, {"a": ["b"]}, {}, good[0]]))
+        elif k < 0.8:
+            f["#" + letter + letter] = good
+        else:
+            f[rng.choice(["#", letter, "#" + letter + "x"])] = good
+    return True
+
+
+class CombinedFilters:
+    """A filter generator with the contract of psess.gen_filter (which it wraps for the valid / invalid / not-a-query bases).
+    `plan`: kinds for the next calls, in order ("valid", "invalid", "invalid+well": an invalid filter that certainly carries a
+    well-formed tag condition, "notquery"); when it is empty the kind is drawn (half of the filters invalid)."""
+
+    def __init__(self, base=None):
+        self.base = base or psess.gen_filter
+        self.plan = []
+        self.shapes = Counter()
+
+    def _base(self, rng, keys, known_ids, want):
+        while True:
+            f, kind = self.base(rng, keys, known_ids)
+            if kind == want:
+                return copy.deepcopy(f)
+
+    def __call__(self, rng, keys, known_ids):
+        want = self.plan.pop(0) if self.plan else None
+        if want is None:
+            r = rng.random()
+            want = "valid" if r < 0.35 else "invalid" if r < 0.6 else "invalid+well" if r < 0.88 else "notquery"
+        if want == "notquery":
+            self.shapes["notquery"] += 1
+            return self._base(rng, keys, known_ids, "notquery"), "notquery"
+        if want == "valid":
+            # a usable filter stays usable: only well-formed conditions, ignored shapes and a `tags` key of the client's are added
+            f = self._base(rng, keys, known_ids, "valid")
+            hows = [rng.choice(["well", "ignored"]) for _ in range(rng.choice([0, 0, 1, 1, 2]))]
+            for how in hows:
+                add_tag_condition(f, rng, keys, known_ids, how)
+            if rng.random() < 0.25:
+                f["tags"] = copy.deepcopy(rng.choice(CLIENT_TAGS))
+                hows.append("clienttags")
+            self.shapes["valid" + "".join("+" + h for h in sorted(set(hows)))] += 1
+            return f, "valid"
+        # an invalid filter: where the invalidity sits x what else the filter carries
+        route = rng.choice(["grammar", "layered", "tagitem"])
+        if route == "grammar":
+            f = self._base(rng, keys, known_ids, "invalid")
+        else:
+            f = self._base(rng, keys, known_ids, "valid")
+            if route == "layered":
+                f.update(copy.deepcopy(rng.choice(MORE_INVALID)))
+        hows = []
+        if route == "tagitem":
+            hows.append(rng.choice(["scalar", "nested"]))
+        if want == "invalid+well":
+            hows.append("well")
+        while len(hows) < 3 and rng.random() < 0.45:
+            hows.append(rng.choice(["well", "well", "scalar", "nested", "ignored"]))
+        rng.shuffle(hows)
+        hows = [how for how in hows if add_tag_condition(f, rng, keys, known_ids, how)]
+        if rng.random() < 0.3:
+            f["tags"] = copy.deepcopy(rng.choice(CLIENT_TAGS))
+            hows.append("clienttags")
+        if rng.random() < 0.3:
+            # the order of the keys is the order in which the relay's rewrite meets them
+            items = list(f.items())
+            rng.shuffle(items)
+            f = dict(items)
+        self.shapes["invalid:" + route + "".join("+" + h for h in sorted(set(hows)))] += 1
+        return f, "invalid"
+
+
+def combined_sessions(report, drv, backend, rng, keys, n_directed, n_random):
+    """sessions whose REQs draw their filters from CombinedFilters.  Directed: a rejected filter alone, next to valid filters (before
+    and after them), as the first REQ of a connection and after the sender task exists, replacing a live subscription, and always
+    followed by further REQs, a CLOSE and live events on the same connection.  Random: psess.gen_session over the same generator."""
+    gen = CombinedFilters()
+    for i in range(n_directed):
+        bad = lambda: rng.choice(["invalid+well", "invalid+well", "invalid"])
+        steps = [("connect", 0), ("connect", 1), ("connect", 2), ("event", 1), ("event", 1),
+                 ("req", 0, "a", ["valid"]),
+                 ("req", 0, "b", [bad()]),                                   # alone
+                 ("req", 0, "c", rng.choice([[bad(), "valid"], ["valid", bad()], ["valid", bad(), bad()]])),
+                 ("req", 0, "a", [bad()] * rng.choice([1, 2, 3])),           # replaces a live subscription by nothing
+                 ("event", 1),
+                 ("req", 2, 'q"uo\\te', [bad()]),                            # the first REQ of its connection
+                 ("req", 2, "y", ["valid"]),
+                 ("req", 0, "c", [bad(), "valid", bad()]),                   # replaces a live subscription
+                 ("close", 0, "b"),
+                 ("event", 2),
+                 ("req", 0, "d", ["valid"]),
+                 ("req", 2, "y", [bad(), bad()]),
+                 ("req", 1, 5, [bad(), "notquery"]),
+                 ("req", 1, 5, ["valid", bad()]),
+                 ("event", 0), ("event", 1)]
+        msgs, plan = [], []
+        for st in steps:
+            if st[0] == "req":
+                msgs.append({"t": "req", "c": st[1], "sub": st[2], "nf": len(st[3])})
+                plan += st[3]
+            elif st[0] == "event":
+                msgs.append({"t": "event", "c": st[1], "what": "new"})
+            else:
+                msgs.append({"t": st[0], "c": st[1], **({"sub": st[2]} if len(st) > 2 else {})})
+        gen.plan = plan
+        check_session(report, drv, backend, rng, keys, "combined-directed-%d" % i, msgs=msgs, filters=gen)
+        gen.plan = []
+    for i in range(n_random):
+        check_session(report, drv, backend, rng, keys, "combined-random-%d" % i, filters=gen)
+    for shape, n in sorted(gen.shapes.items()):
+        report.count("combined_filter_" + shape, n)
+    report.count("combined_sessions_" + backend, n_directed + n_random)
+
+
+FILTER_FIELDS = ["ids", "authors", "kinds", "since", "until", "limit", "search", "tags", "#e", "#p", "#t", "#ee", "x"]
+JSON_VALUES = [None, True, False, 0, 1, -1, 1.5, 2 ** 70, "", "x", "1", "ab" * 32, [], [[]], {}, {"a": 1}, ["x"], ["ab" * 32], [1], [None], [1, "x"],
+               [[1]], [{"a": 1}], [1.5], [True], [-1], [2 ** 70]]
+
+
+def typed_filter_probes(report, backend, rng, keys, n_probes=None):
+    """every JSON type at every field of a filter, with 0..3 tag conditions (well-formed, holding non-strings, holding nested values,
+    ignored shapes) next to it, sent alone or next to a valid filter on a connection that stays open: whatever the relay makes of
+    the filter, the REQ gets exactly one EOSE or NOTICE, and the REQ after it gets the whole stored answer.  `n_probes`: None = the
+    full product once (the quick tier: 13 fields x 27 values), else that many drawn from it with fresh decorations."""
+    from lib.proto import Conn
+
+    relay = Relay(backend)
+    try:
+        pub = Conn(relay, remote_addr="3.3.3.3")
+        stored = []
+        for i in range(4):
+            ev = relay.signed_event(keys[i % len(keys)], kind=1, content="probe-stored %d %s" % (i, backend), tags=[["t", "xyw"[i % 3]]],
+                                    created_at=1700000000 + 10 * i)
+            if pub.send_event(ev):
+                stored.append(ev["id"])
+        product = [(fld, v) for fld in FILTER_FIELDS for v in JSON_VALUES]
+        if n_probes is None:
+            probes = product
+        else:
+            probes = [rng.choice(product) for _ in range(n_probes)]
+        c, history = Conn(relay), []
+        for i, (fld, v) in enumerate(probes):
+            if c.done:
+                c, history = Conn(relay, remote_addr="1.2.3.%d" % (i % 200)), []
+            f = {fld: copy.deepcopy(v)}
+            hows = [rng.choice(["well", "well", "scalar", "nested", "ignored"]) for _ in range(rng.choice([0, 0, 1, 1, 2, 3]))]
+            hows = [how for how in hows if add_tag_condition(f, rng, keys, stored, how)]
+            if hows and rng.random() < 0.3:
+                items = list(f.items())
+                rng.shuffle(items)
+                f = dict(items)
+            shape = rng.choice(["alone", "alone", "before-valid", "after-valid"])
+            filters = {"alone": [f], "before-valid": [f, {"kinds": [1]}], "after-valid": [{"authors": [keys[0].public_key.hex()]}, f]}[shape]
+            name = "p%d" % (i % 3)                          # ids are reused: a probe replaces the probe three before it
+            msg = ["REQ", name] + filters
+            history.append(msg)
+            payload = {"backend": backend, "case": "typed-filter-probe", "field": fld, "value": v, "shape": shape,
+                       "frames_sent_on_the_connection": list(history)}
+            n = len(c.out)
+            c.send(msg)
+            fr = [x for x in c.frames(n) if isinstance(x, list) and x]
+            mine = [x[0] for x in fr if x[0] in ("EVENT", "EOSE") and x[1] == name]
+            notices = [x for x in fr if x[0] == "NOTICE"]
+            ended = "" if c.closed_with is None else " (the relay closed the connection with code %s)" % c.closed_with
+            failed = False
+            if mine.count("EOSE") + len(notices) != 1:
+                failed = report.property_failure("%s: a REQ was answered by %d EOSE and %d NOTICE frames%s"
+                                                 % (backend, mine.count("EOSE"), len(notices), ended), payload, None)
+            elif "EOSE" in mine and "EVENT" in mine[mine.index("EOSE"):]:
+                failed = report.property_failure("%s: a stored event was sent after the EOSE of its REQ" % backend, payload, None)
+            if c.exc is not None:
+                failed = report.property_failure("%s: an exception escaped the connection handler: %r" % (backend, c.exc), payload, None)
+            # the connection stays usable: the next REQ on it is answered in full (every third probe, and after any failure)
+            if i % 3 == 2 or failed:
+                after = ["REQ", "after", {"kinds": [1]}]
+                history.append(after)
+                n = len(c.out)
+                c.send(after)
+                fr = [x for x in c.frames(n) if isinstance(x, list) and x and x[0] in ("EVENT", "EOSE") and x[1] == "after"]
+                got = sorted(x[2].get("id") for x in fr if x[0] == "EVENT")
+                if got != sorted(stored) or [x[0] for x in fr].count("EOSE") != 1:
+                    report.property_failure("%s: after a REQ with an odd filter the next REQ on the connection was answered with %d of %d stored "
+                                            "events and %d EOSE%s" % (backend, len(got), len(stored), [x[0] for x in fr].count("EOSE"), ended),
+                                            dict(payload, frames_sent_on_the_connection=list(history)), None)
+                c.send(["CLOSE", "after"])
+                history.append(["CLOSE", "after"])
+            report.count("probe_" + shape)
+            report.count("probe_tagconds_%d" % len(hows))
+            if notices:
+                report.count("probe_answer_notice")
+            elif "EVENT" in mine:
+                report.count("probe_answer_events_eose")
+            else:
+                report.count("probe_answer_eose_only")
+            report.case(("typed-probe", backend, json.dumps(msg, sort_keys=True)), nontrivial=bool(hows) or shape != "alone",
+                        sample={"case": "typed-filter-probe", "backend": backend, "frame": msg} if i == 7 else None)
+        report.count("typed_filter_probes_" + backend, len(probes))
+        for x in relay.conns:
+            if not x.done:
+                x.close()
+        if any(v for v in relay.open_subscriptions().values()):
+            report.property_failure("%s: subscriptions survive their connections: %r" % (backend, relay.open_subscriptions()),
+                                    {"backend": backend, "case": "typed-filter-probe"}, None)
+    finally:
+        relay.close()
+
+
 def run(report, tier, seed):
     rng = random.Random(seed)
+    # the families added later draw from a stream of their own (a function of the seed): the sessions of the older families stay
+    # what they were for a given seed
+    rng_comb = random.Random("%d/filters-invalid-in-combination" % seed)
     drv = common.Driver()
     from aionostr.key import PrivateKey
 
@@ -257,6 +546,14 @@ def run(report, tier, seed):
         "strings, numbers, null, with quotes), CLOSE of open and unknown ids, EVENT (new / resubmitted / bad signature), "
         "disconnect and late connect; 12 (thorough: 40) subscriptions CLOSEd or replaced while their stored events are streaming "
         "(the stream is stopped from outside after its first event), then fresh REQs on the same and on another connection; "
+        "filters invalid in combination with well-formed parts: 3 directed + 6 random sessions per backend (thorough: 20 + 100) whose "
+        "filters are (valid / invalid base, 15 further invalidities layered over a valid base, a bad item inside a tag condition) x "
+        "(0-3 tag conditions: well-formed, holding non-string scalars, holding nested arrays / objects, shapes the relay ignores) x "
+        "(a `tags` key of the client's own, shuffled key order), a rejected filter alone, before / after valid filters, as first REQ "
+        "of a connection, replacing a live subscription, followed by REQs / CLOSE / live events on the same connection; label-free "
+        "probes: 27 JSON values at each of 13 filter fields (the full product; thorough: + 3000 draws) x 0-3 such tag conditions, "
+        "alone or next to a valid filter, on one connection that must go on answering (exactly one EOSE or NOTICE per REQ, the "
+        "next REQ gets the whole stored answer); "
         "the loop is settled after every message; non-trivial = the session has a refused REQ or a CLOSE")
     report.assumptions += ["quiescence after every message (interleavings inside a step are whatever the event loop does; "
                            "all interleavings are covered by the theorems over `run`, not by this check)"]
@@ -264,6 +561,10 @@ def run(report, tier, seed):
         for backend in ("sql", "kv"):
             directed(report, drv, backend, rng, keys)
             midstream_cancel(report, backend, keys, rounds=12 if tier == "quick" else 40)
+            combined_sessions(report, drv, backend, rng_comb, keys, *((3, 6) if tier == "quick" else (20, 100)))
+            typed_filter_probes(report, backend, rng_comb, keys)
+            if tier != "quick":
+                typed_filter_probes(report, backend, rng_comb, keys, n_probes=3000)
         for i in range(10 if tier == "quick" else 250):
             for backend in ("sql", "kv"):
                 check_session(report, drv, backend, rng, keys, i)
